@@ -11,6 +11,7 @@ Sem == INSTANCE Semantics
 RT == INSTANCE RoundTrip
 EJ == INSTANCE ExprJson
 RM == INSTANCE Render
+PR == INSTANCE Printers
 
 CONSTANTS ResFile, VerdictFile, Prop, Shards
 Groups == ndJsonDeserialize(ResFile)
@@ -128,6 +129,18 @@ RenderDrift(g) == IF Prop \notin {"C03","C04"} THEN 0
                             THEN Cardinality(bad) ELSE 0
 RenderPredicted(g) == IF Prop \notin {"C03","C04"} THEN 0 ELSE Cardinality({i \in DOMAIN g.cases : RenderKnown(g.cases[i])})
 
+\* conformance of the printer model (Printers.tla): predicted texts of String() / GoString() = observed texts
+PrintSame(tree, p) == ~PR!Known(tree) \/ (PR!Str(tree) = p.str /\ PR!Go(tree) = p.gostr)
+\* (variants of one tree print alike: the minimal print and the near misses are compared)
+PrintConf(c) == c.kind \notin {"min","mut"} \/ (("print" \notin DOMAIN c \/ PrintSame(c.res.tree, c.print)) /\ ("printdf" \notin DOMAIN c \/ PrintSame(c.resdf.tree, c.printdf)))
+PrintDrift(g) == LET bad == {i \in DOMAIN g.cases : ~PrintConf(g.cases[i])} IN
+                 IF bad = {} THEN 0
+                 ELSE LET c == g.cases[CHOOSE i \in bad : TRUE] IN
+                      IF PrintT("PRINT-DRIFT " \o ToJson([q |-> c.res.q, model_str |-> PR!Str(c.res.tree), code_str |-> c.print.str,
+                                                          model_gostr |-> PR!Go(c.res.tree), code_gostr |-> c.print.gostr]))
+                      THEN Cardinality(bad) ELSE 0
+PrintPredicted(g) == 2 * Cardinality({i \in DOMAIN g.cases : g.cases[i].kind \in {"min","mut"} /\ "print" \in DOMAIN g.cases[i] /\ PR!Known(g.cases[i].res.tree)})
+
 Judge(g) == CASE Prop = "C12" -> C12(g) [] Prop = "C03" -> C03(g) [] Prop = "C04" -> C04(g) [] Prop = "C05" -> C05(g) [] Prop = "C07" -> C07(g) [] Prop = "C09" -> C09(g)
               [] Prop = "C10" -> C10(g) [] Prop = "C11" -> C11(g) [] Prop = "C06" -> C06(g) [] Prop = "C01" -> C01(g)
 
@@ -142,11 +155,11 @@ Relevant(c) == CASE Prop = "C05" -> c.kind \in {"min","paren"} [] Prop = "C07" -
 \* one TLC state per group, so the state count is the number of trees judged
 \* the file is judged in Shards independent behaviours (shard sh takes lines sh+1, sh+1+Shards, ...), which
 \* TLC explores in parallel with -workers
-VARIABLES sh, n, last, fails, kfs, judged, nfail, nkf, ndrift, nrdrift, npred
-jvars == <<sh, n, last, fails, kfs, judged, nfail, nkf, ndrift, nrdrift, npred>>
+VARIABLES sh, n, last, fails, kfs, judged, nfail, nkf, ndrift, nrdrift, npred, npdrift, nppred
+jvars == <<sh, n, last, fails, kfs, judged, nfail, nkf, ndrift, nrdrift, npred, npdrift, nppred>>
 Open(f)  == SelectSeq(f, LAMBDA v : v.kf = "none")
 Known(f) == SelectSeq(f, LAMBDA v : v.kf # "none")
-Init == sh \in 0..(Shards - 1) /\ n = sh /\ last = <<>> /\ fails = <<>> /\ kfs = <<>> /\ judged = 0 /\ nfail = 0 /\ nkf = 0 /\ ndrift = 0 /\ nrdrift = 0 /\ npred = 0
+Init == sh \in 0..(Shards - 1) /\ n = sh /\ last = <<>> /\ fails = <<>> /\ kfs = <<>> /\ judged = 0 /\ nfail = 0 /\ nkf = 0 /\ ndrift = 0 /\ nrdrift = 0 /\ npred = 0 /\ npdrift = 0 /\ nppred = 0
 \* each step judges one line into `last` (evaluated exactly once) and files the previous line's verdicts
 Next == /\ n < Len(Groups) + Shards /\ n' = n + Shards /\ UNCHANGED sh
         /\ last' = IF n < Len(Groups) THEN GroupFails(Groups[n + 1]) ELSE <<>>
@@ -157,9 +170,12 @@ Next == /\ n < Len(Groups) + Shards /\ n' = n + Shards /\ UNCHANGED sh
         /\ ndrift' = ndrift + (IF n < Len(Groups) THEN CodecDrift(Groups[n + 1]) ELSE 0)
         /\ nrdrift' = nrdrift + (IF n < Len(Groups) THEN RenderDrift(Groups[n + 1]) ELSE 0)
         /\ npred' = npred + (IF n < Len(Groups) THEN RenderPredicted(Groups[n + 1]) ELSE 0)
+        /\ npdrift' = npdrift + (IF n < Len(Groups) THEN PrintDrift(Groups[n + 1]) ELSE 0)
+        /\ nppred' = nppred + (IF n < Len(Groups) THEN PrintPredicted(Groups[n + 1]) ELSE 0)
 Spec == Init /\ [][Next]_jvars
 Report == n >= Len(Groups) + Shards =>
             /\ PrintT("JUDGED " \o ToJson([prop |-> Prop, shard |-> sh, judged |-> judged, failures |-> nfail, known |-> nkf, drift |-> ndrift,
-                                                render_drift |-> nrdrift, render_predicted |-> npred]))
+                                                render_drift |-> nrdrift, render_predicted |-> npred,
+                                                print_drift |-> npdrift, print_predicted |-> nppred]))
             /\ ndJsonSerialize(VerdictFile \o "." \o ToString(sh), fails \o kfs)
 =======================================================================
